@@ -725,16 +725,22 @@ func ruleSelInsert(r *Run) {
 	}
 	n := 0
 	// setRules, its closures and the module functions it calls statically (the insertion may be a recursive
-	// closure or a recursive method)
+	// closure or a recursive method). Each list of the node is filled under one arm only: the rules of selectors
+	// ending in '*' and the rules of selectors ending at the node are kept apart (getRules treats them differently)
+	armsOf := map[string]map[string]bool{}
 	for _, fn := range p.staticReach(top) {
 		for _, w := range e.AllWrites(fn) {
-			if w.Target() != "ruleSelector.rules" || w.Kind != "append" {
+			if !strings.HasPrefix(w.Target(), "ruleSelector.") || w.Kind != "append" {
+				continue
+			}
+			if w.Target() == "ruleSelector.path" {
 				continue
 			}
 			n++
 			key := fmt.Sprintf("%s/rule-stored#%d", shortFunc(fn), n)
-			// dominated by tag == "*" or tag == "" where tag is the first result of strings.Cut(selector, ".")
-			// reached only when tag == "*" or tag == "" (one arm each, or a merged `case "*", "":`)
+			arm := ""
+			found := false
+			// reached only when tag == "*" or tag == "" where tag is the first result of strings.Cut(selector, ".")
 			good := p.guardedInEveryContext(w.Instr.Block(), func(g guardFact) bool {
 				x, y, op, ok := g.cmp()
 				if !ok || op != token.EQL {
@@ -746,14 +752,49 @@ func ruleSelInsert(r *Run) {
 				}
 				if ex, ok := x.(*ssa.Extract); ok && ex.Index == 0 {
 					if c, ok := ex.Tuple.(*ssa.Call); ok && calleeName(c) == "strings.Cut" {
+						if !found {
+							arm, found = s, true
+						}
 						return true
 					}
 				}
 				return false
 			})
+			// which single arm? (a merged `case "*", "":` establishes neither on its own)
+			single := func(want string) bool {
+				return p.guardedInEveryContext(w.Instr.Block(), func(g guardFact) bool {
+					x, y, op, ok := g.cmp()
+					if !ok || op != token.EQL {
+						return false
+					}
+					s, isC := constString(y)
+					if !isC || s != want {
+						return false
+					}
+					ex, ok := x.(*ssa.Extract)
+					return ok && ex.Index == 0
+				})
+			}
+			if armsOf[w.Target()] == nil {
+				armsOf[w.Target()] = map[string]bool{}
+			}
+			switch {
+			case single("*"):
+				armsOf[w.Target()]["*"] = true
+			case single(""):
+				armsOf[w.Target()]["exact"] = true
+			default:
+				armsOf[w.Target()]["*"] = true
+				armsOf[w.Target()]["exact"] = true
+			}
+			_ = arm
 			r.check(good, key, w.Instr.Pos(), "the rule is stored on the node reached when the current component is '*' or the selector is exhausted",
 				"a rule is appended to a selector node outside the arms `component == \"*\"` / `component == \"\"`: a wildcard like pkg.Service.* is stored one level too high and binds sibling services (or every package)")
 		}
+	}
+	for tgt, arms := range armsOf {
+		r.check(!(arms["*"] && arms["exact"]), "setRules/kinds-kept-apart:"+tgt, top.Pos(), "the list holds the rules of one kind of selector only (ending in '*', or ending at the node)",
+			"rules of selectors that end in '*' and of selectors that end at the node are appended to the same list ("+tgt+"): lookup can no longer tell them apart - an exact selector `pkg.Svc` then binds every method below it like `pkg.Svc.*`, and `pkg.Svc.M.*` binds pkg.Svc.M itself")
 	}
 	if n == 0 {
 		r.undecided("setRules/rule-stored", top.Pos(), "no append to ruleSelector.rules found")
